@@ -1,0 +1,28 @@
+//! C27: crate-private credential constructors the harness needs to give its test accounts
+//! every primary-credential shape (generated password, password + backup codes).
+//! Thin wrappers, no behaviour of the server is changed.
+
+use crate::credential::{BackupCodes, Credential};
+use time::OffsetDateTime;
+
+/// `Credential::update_backup_code` (crate-private): the credential with this set of backup
+/// codes. `None` when the credential is not a password+MFA credential (as the real function).
+pub fn cred_set_backup_codes(cred: &Credential, codes: &[&str]) -> Option<Credential> {
+    let set = codes.iter().map(|c| c.to_string()).collect();
+    cred.update_backup_code(BackupCodes::new(set), OffsetDateTime::UNIX_EPOCH)
+        .ok()
+}
+
+/// A generated-password credential with the cheapest hashing parameters (a harness run
+/// verifies tens of thousands of passwords).
+pub fn cred_new_generated_password(cleartext: &str) -> Credential {
+    let p = kanidm_lib_crypto::CryptoPolicy::danger_test_minimum();
+    Credential::new_generatedpassword_only(&p, cleartext, OffsetDateTime::UNIX_EPOCH)
+        .expect("credential")
+}
+
+/// A password-only credential with the cheapest hashing parameters.
+pub fn cred_new_password(cleartext: &str) -> Credential {
+    let p = kanidm_lib_crypto::CryptoPolicy::danger_test_minimum();
+    Credential::new_password_only(&p, cleartext, OffsetDateTime::UNIX_EPOCH).expect("credential")
+}
